@@ -19,6 +19,7 @@ type Job struct {
 	Property  string          `json:"property"`
 	Tier      string          `json:"tier"`
 	Seeds     []uint64        `json:"seeds"`
+	First     int             `json:"first"`
 	Replay    *checks.RunSpec `json:"replay,omitempty"`
 	Verbose   bool            `json:"verbose,omitempty"`
 	Budget    float64         `json:"budget_s,omitempty"` // wall-clock budget for this worker
@@ -75,13 +76,14 @@ func TestWorker(t *testing.T) {
 		emit("end", res)
 		return
 	}
-	for _, seed := range job.Seeds {
+	for pos, seed := range job.Seeds {
 		if job.Budget > 0 && time.Since(start).Seconds() > job.Budget {
 			emit("budget", map[string]interface{}{"next_seed": seed})
 			break
 		}
 		emit("begin", map[string]interface{}{"seed": seed})
-		res := c.Run(t, checks.RunSpec{Property: job.Property, Seed: seed, Tier: job.Tier})
+		res := c.Run(t, checks.RunSpec{Property: job.Property, Seed: seed, Index: job.First + pos, Tier: job.Tier})
+		res.Index = job.First + pos
 		if len(res.Violations) == 0 && !job.Verbose {
 			res.Actions = nil
 		}
